@@ -136,13 +136,18 @@ Theorem tf_history j ops s : fam_inv tf_family s ->
   end.
 Proof. apply (family_history tf_family ap_dummy (fam_indep_spec _ _ tf_family_indep)). Qed.
 
+(** the unit conversion the hand-written catalogue uses for Font.size IS the body of Length.centipoints translated from
+    pptx/util.py on every run (gen/GenC11.v), on every integer *)
+Lemma centipoints_tied z : py_centipoints_attr (PInt z) = Length__centipoints (PInt z).
+Proof. reflexivity. Qed.
+
 (** * quantum of Font.size: emu // 127 centipoints, read back as 127 * centipoints *)
 Definition font_size_prop : aprop := ap pre_font_size post_font_size [] [] A_CT_TextCharacterProperties__sz.
 Theorem font_size_quant emu : (12700 <= emu <= 50800126)%Z ->
   ap_quant font_size_prop (plain (PInt emu)) = Ok (PInt (emu / 127 * 127)).
 Proof.
   intros H. unfold ap_quant, font_size_prop, ap. cbn [ap_pre ap_post ap_d].
-  unfold pre_font_size, plain. cbn [av_val py_Emu py_int py_centipoints_attr py_floordiv arith as_num].
+  unfold pre_font_size, plain. cbn [av_val py_Emu py_int py_centipoints_attr Length__centipoints py_floordiv arith as_num].
   change (Z.eqb 127 0) with false. cbn iota.
   cbn [ad_codec ad_kind A_CT_TextCharacterProperties__sz stored av_val].
   change (py_eqb (PInt (emu / 127)) PNone) with false. cbn iota.
@@ -624,7 +629,7 @@ Proof.
   cbn [py_isinstance existsb isinstance1 orb as_bool bind py_truth negb py_lt py_gt py_order as_num cmp_num].
   destruct (Z.compare_spec z 0) as [E|E|E]; try lia;
     destruct (Z.compare_spec z 20116800) as [E2|E2|E2]; try lia;
-    cbn [bind py_Emu py_int py_centipoints_attr py_floordiv arith as_num]; change (Z.eqb 127 0) with false; cbn iota; reflexivity.
+    cbn [bind py_Emu py_int Length__centipoints py_floordiv arith as_num]; change (Z.eqb 127 0) with false; cbn iota; reflexivity.
 Qed.
 Theorem spacing_point_quant z : (0 <= z <= 20116800)%Z ->
   stored (ad_codec A_CT_TextSpacingPoint__val) (ad_kind A_CT_TextSpacingPoint__val) (PInt z) = Ok (PInt (z / 127 * 127))
